@@ -23,8 +23,11 @@ import Mathlib.Tactic.Ring
 import Mathlib.Tactic.LinearCombination
 import Mathlib.Tactic.SplitIfs
 import Mathlib.NumberTheory.LegendreSymbol.QuadraticChar.Basic
+import Mathlib.Algebra.CharP.Two
+import Mathlib.Algebra.BigOperators.Group.Finset.Basic
 import RelicVerif.Spec.HashToCurve
 import RelicVerif.Model.EpMap
+import RelicVerif.Spec.HashToCurveEd
 
 namespace Relic.Lemmas.MapToCurve
 open Relic.Spec.H2C Relic.Model.EpMap
@@ -740,6 +743,124 @@ theorem swiftC_eq_swift (b tau u t : F) (s : Bool) (h2 : (2 : F) ≠ 0) :
     rfl
 
 end swiftmaps
+
+
+/-! ### Elligator 2 and the Montgomery → twisted Edwards map -/
+
+section edwards
+open Relic.Spec.H2CEd
+variable (isSq : F → Bool) (sqrt : F → F) (sgn0 : F → Bool)
+
+/-- the Montgomery curve polynomial s³ + J s² + s -/
+def gMF (J x : F) : F := x ^ 3 + J * x ^ 2 + x
+
+theorem gM_eq (J x : F) : gM (fOps isSq sqrt sgn0) J x = gMF J x := by
+  simp only [gM, fOps, gMF]; ring
+
+/-- RFC 9380 §6.7.1: the Elligator 2 output satisfies t² = s³ + J s² + s for EVERY u, given only that Z is a non-square
+    (g(x2) = Z u² g(x1) off the exceptional case; x1 = −J, x2 = 0 in it) -/
+theorem elligator2_on_curve (H : Oracle isSq sqrt) (J Z : F) (hZ : ¬ IsSquare Z) (u : F) :
+    (elligator2 (fOps isSq sqrt sgn0) J Z u).2 * (elligator2 (fOps isSq sqrt sgn0) J Z u).2 =
+      gMF J (elligator2 (fOps isSq sqrt sgn0) J Z u).1 := by
+  simp only [elligator2, gM_eq]
+  simp only [fOps, decide_eq_true_eq]
+  have hsgn : ∀ (c : Bool) (y : F), (if c = true then y else -y) * (if c = true then y else -y) = y * y := by
+    intro c y; cases c <;> simp
+  have hsgn' : ∀ (c : Bool) (y : F), (if c = true then -y else y) * (if c = true then -y else y) = y * y := by
+    intro c y; cases c <;> simp
+  by_cases hx : -(J * (1 + Z * (u * u))⁻¹) = 0
+  · -- x1 = −J, x2 = 0
+    simp only [hx, if_true]
+    by_cases h1 : isSq (gMF J (-J)) = true
+    · simp only [h1, if_true, hsgn]
+      exact H.sqrt_of_isSq h1
+    · simp only [h1, Bool.false_eq_true, if_false, hsgn']
+      have e0 : - -J - J = 0 := by ring
+      rw [e0]
+      have : gMF J 0 = 0 := by unfold gMF; ring
+      rw [this]
+      exact H.sqrt_sq 0 IsSquare.zero
+  · simp only [hx, if_false]
+    by_cases h1 : isSq (gMF J (-(J * (1 + Z * (u * u))⁻¹))) = true
+    · simp only [h1, if_true, hsgn]
+      exact H.sqrt_of_isSq h1
+    · simp only [h1, Bool.false_eq_true, if_false, hsgn']
+      apply H.sqrt_sq
+      have hD : (1 + Z * (u * u)) ≠ 0 := by
+        intro h; apply hx; rw [h, inv_zero, mul_zero, neg_zero]
+      have hDi : (1 + Z * (u * u)) * (1 + Z * (u * u))⁻¹ = 1 := mul_inv_cancel₀ hD
+      have e2 : - -(J * (1 + Z * (u * u))⁻¹) - J = Z * (u * u) * (-(J * (1 + Z * (u * u))⁻¹)) := by
+        linear_combination J * hDi
+      have e3 : gMF J (- -(J * (1 + Z * (u * u))⁻¹) - J) = u * u * (Z * gMF J (-(J * (1 + Z * (u * u))⁻¹))) := by
+        have e4 : gMF J (- -(J * (1 + Z * (u * u))⁻¹) - J) =
+            (- -(J * (1 + Z * (u * u))⁻¹) - J) * ((-(J * (1 + Z * (u * u))⁻¹)) ^ 2 + J * (-(J * (1 + Z * (u * u))⁻¹)) + 1) := by
+          unfold gMF; ring
+        rw [e4, e2]; unfold gMF; ring
+      rw [e3]
+      exact isSquare_sq_mul (H.nonsq_mul _ _ hZ (H.not_sq h1))
+
+/-- Appendix D.1 of RFC 9380: the rational map sends every point of t² = s³ + J s² + s (exceptional ones included) to a point of
+    −x² + y² = 1 + d x² y², given c² = −(J + 2) and d = −(J − 2)/(J + 2) -/
+theorem montToEd_on_curve (J c d s t : F) (hc : c * c = -(J + 2)) (hd : d * (J + 2) + (J - 2) = 0)
+    (hcurve : t * t = gMF J s) :
+    let vw := montToEd (fOps isSq sqrt sgn0) c (s, t)
+    vw.2 * vw.2 - vw.1 * vw.1 = 1 + d * (vw.1 * vw.1) * (vw.2 * vw.2) := by
+  intro vw
+  simp only [vw, montToEd]
+  simp only [fOps, Bool.or_eq_true, decide_eq_true_eq]
+  by_cases hex : t = 0 ∨ s + 1 = 0
+  · rw [if_pos hex]; ring
+  · rw [if_neg hex]
+    rw [not_or] at hex
+    obtain ⟨ht, hs1⟩ := hex
+    simp only
+    have key : -((c * s) ^ 2 * (s + 1) ^ 2) + t ^ 2 * (s - 1) ^ 2 - t ^ 2 * (s + 1) ^ 2 - d * ((c * s) ^ 2 * (s - 1) ^ 2) = 0 := by
+      unfold gMF at hcurve
+      linear_combination (-(s ^ 2 * (s + 1) ^ 2 + d * (s ^ 2 * (s - 1) ^ 2))) * hc + (s ^ 2 * (s - 1) ^ 2) * hd + (-4 * s) * hcurve
+    field_simp
+    linear_combination key
+
+end edwards
+
+
+/-! ### binary curves: the quadratic of eb_map -/
+
+/-- a solution λ of λ² + λ = (x³ + a x² + b)/x² gives the point (x, λ·x) of y² + x y = x³ + a x² + b -/
+theorem eb_solution_on_curve (a b x l : F) (hx : x ≠ 0) (hl : l * l + l = (x ^ 3 + a * x ^ 2 + b) / (x * x)) :
+    (l * x) * (l * x) + x * (l * x) = x ^ 3 + a * x ^ 2 + b := by
+  have h : (l * x) * (l * x) + x * (l * x) = (l * l + l) * (x * x) := by ring
+  rw [h, hl]; field_simp
+
+/-- in characteristic 2 the other solution λ + 1 gives the opposite point (x, y + x) -/
+theorem eb_other_root {R : Type} [CommRing R] [CharP R 2] (l : R) : (l + 1) * (l + 1) + (l + 1) = l * l + l := by
+  have h2 : (2 : R) = 0 := CharTwo.two_eq_zero
+  linear_combination (l + 1) * h2
+
+/-- half-trace: H = Σ_{i ≤ n} c^(4^i) satisfies H² + H = Σ_{j < 2n+2} c^(2^j) in characteristic 2; hence for m = 2n + 1,
+    c^(2^m) = c (every element of GF(2^m)) and Tr(c) = Σ_{j<m} c^(2^j) = 0 it solves H² + H = c -/
+theorem halfTrace_sq_add {R : Type} [CommRing R] [CharP R 2] (c : R) (n : ℕ) :
+    (∑ i ∈ Finset.range (n + 1), c ^ (4 ^ i)) ^ 2 + ∑ i ∈ Finset.range (n + 1), c ^ (4 ^ i) =
+      ∑ j ∈ Finset.range (2 * n + 2), c ^ (2 ^ j) := by
+  induction n with
+  | zero =>
+    simp [Finset.sum_range_succ]
+    ring
+  | succ n ih =>
+    rw [Finset.sum_range_succ (fun i => c ^ (4 ^ i)) (n + 1), CharTwo.add_sq,
+      show 2 * (n + 1) + 2 = (2 * n + 2) + 1 + 1 by ring, Finset.sum_range_succ _ (2 * n + 2 + 1),
+      Finset.sum_range_succ _ (2 * n + 2), ← ih]
+    have e1 : (c ^ 4 ^ (n + 1)) ^ 2 = c ^ 2 ^ (2 * n + 2 + 1) := by
+      rw [← pow_mul]; congr 1
+      rw [show (4 : ℕ) = 2 ^ 2 by norm_num, ← pow_mul, ← pow_succ]; congr 1
+    have e2 : c ^ 4 ^ (n + 1) = c ^ 2 ^ (2 * n + 2) := by
+      congr 1
+      rw [show (4 : ℕ) = 2 ^ 2 by norm_num, ← pow_mul]; congr 1
+    rw [e1, e2]; ring
+
+theorem halfTrace_solves {R : Type} [CommRing R] [CharP R 2] (c : R) (n : ℕ)
+    (hfrob : c ^ (2 ^ (2 * n + 1)) = c) (htr : ∑ j ∈ Finset.range (2 * n + 1), c ^ (2 ^ j) = 0) :
+    (∑ i ∈ Finset.range (n + 1), c ^ (4 ^ i)) ^ 2 + ∑ i ∈ Finset.range (n + 1), c ^ (4 ^ i) = c := by
+  rw [halfTrace_sq_add, show 2 * n + 2 = (2 * n + 1) + 1 by ring, Finset.sum_range_succ, htr, hfrob, zero_add]
 
 /-! ### cofactor clearing, try-and-increment -/
 
